@@ -22,15 +22,18 @@ N(tok) == NumOf(tok)
 StateNames1 == {"V", "S", "beta"}
 StateNames2 == {"w", "E", "gamma"}
 NestNames == {"alpha", "I", "N"}
-ConstNames == {"g", "Q", "zeta", "pi"}     \* "pi": a name the .ode grammar reads as the number, unless it is renamed
+ConstNames == {"g", "Q", "zeta"}
+\* the constant that exists in ONE component only keeps its local name as unique name;
+\* "pi": a name the .ode grammar reads as the number, unless it is renamed
+OnlyNames == {"p", "pi"}
 
-VARIABLES pc, s1, s2, nest1, nest2, deep, cn, shape
-vars == <<pc, s1, s2, nest1, nest2, deep, cn, shape>>
-Init == pc = "pick" /\ s1 = "" /\ s2 = "" /\ nest1 = "" /\ nest2 = "" /\ deep = FALSE /\ cn = "" /\ shape = 0
-Pick1 == /\ pc = "pick" /\ s1' \in StateNames1 /\ s2' \in StateNames2 /\ cn' \in ConstNames /\ pc' = "pick2"
+VARIABLES pc, s1, s2, nest1, nest2, deep, cn, pn, shape
+vars == <<pc, s1, s2, nest1, nest2, deep, cn, pn, shape>>
+Init == pc = "pick" /\ s1 = "" /\ s2 = "" /\ nest1 = "" /\ nest2 = "" /\ deep = FALSE /\ cn = "" /\ pn = "" /\ shape = 0
+Pick1 == /\ pc = "pick" /\ s1' \in StateNames1 /\ s2' \in StateNames2 /\ cn' \in ConstNames /\ pn' \in OnlyNames /\ pc' = "pick2"
          /\ UNCHANGED <<nest1, nest2, deep, shape>>
 Pick2 == /\ pc = "pick2" /\ nest1' \in NestNames /\ nest2' \in NestNames   \* equal names = clashing local names under different parents
-         /\ deep' \in BOOLEAN /\ shape' \in 1..4 /\ pc' = "done" /\ UNCHANGED <<s1, s2, cn>>
+         /\ deep' \in BOOLEAN /\ shape' \in 1..4 /\ pc' = "done" /\ UNCHANGED <<s1, s2, cn, pn>>
 Spec == Init /\ [][Pick1 \/ Pick2]_vars
 Done == pc = "done"
 
@@ -42,7 +45,7 @@ DotOf(path) == "dot(" \o path \o ")"
 Ref(p) == Var(p)
 Vs == LET v1 == P("c1", s1)  v2 == P("c2", s2)
           a1 == v1 \o "." \o nest1   a2 == v2 \o "." \o nest2   k1 == a1 \o ".k"
-          g1 == P("c1", cn)  g2 == P("c2", cn)  p1 == P("c1", "p")  r2 == P("c2", "r")
+          g1 == P("c1", cn)  g2 == P("c2", cn)  p1 == P("c1", pn)  r2 == P("c2", "r")
       IN [v1 |-> v1, v2 |-> v2, a1 |-> a1, a2 |-> a2, k1 |-> k1, g1 |-> g1, g2 |-> g2, p1 |-> p1, r2 |-> r2]
 Model ==
   LET n == Vs IN
